@@ -546,8 +546,8 @@ func runFuzzTarget(run *hx.Run, target string, b []byte) {
 			mine[100] = 1
 			_ = records.DiffSubnets(all, s)
 			_ = records.DiffSubnets(s, all)
-			_ = records.SharedSubnets(all, s, 1)  // network/peers/connections/conn_handler.go sharesEnoughSubnets(mySubnets, peerSubnets, 1)
-			_ = records.SharedSubnets(mine, s, 1) // the same for a node with few subnets
+			_ = records.SharedSubnets(all, s, 1)        // network/peers/connections/conn_handler.go sharesEnoughSubnets(mySubnets, peerSubnets, 1)
+			_ = records.SharedSubnets(mine, s, 1)       // the same for a node with few subnets
 			_ = records.SharedSubnets(s, all, len(all)) // network/peers/conn_manager.go (peerSubnets, mySubnets, len(mySubnets))
 			if len(s) != 0 {
 				_ = peers.VerifScorePeer(s, all) // network/peers/conn_manager.go getBestPeers -> scorePeer(peerSubnets, scores)
